@@ -70,6 +70,18 @@ Proof. exact (GeoHistory.geo_refines_pipe ops h' g' xs). Qed.
 Theorem C03_geo_bytes h g s : GeoRefine.R h g s -> Geo.all_bytes h g = map fst (concat (slices s)).
 Proof. exact (GeoHistory.R_all_bytes h g s). Qed.
 
+(* ... and the model never panics: a history panics only if some operation was called outside its documented precondition
+   (pop_front with nothing consumable, backfill with a handle that is not pending or of the wrong length, a size above 2^62,
+   a reader reporting more bytes than it was asked for) *)
+From WP Require iovec.GeoNoPanic.
+Theorem C03_geo_never_panics ops :
+  GeoHistory.g1run [] Geo.empty_iov ops = None ->
+  exists ops1 o ops2 h1 g1 xs, ops = ops1 ++ o :: ops2 /\ GeoHistory.g1run [] Geo.empty_iov ops1 = Some (h1, g1, xs) /\
+                               ~ GeoNoPanic.pre g1 o.
+Proof. exact (GeoNoPanic.geo_never_panics ops). Qed.
+Theorem C03_geo_step_never_panics h g o : GeoNoPanic.NP h g -> GeoNoPanic.pre g o -> exists r, GeoHistory.g1step h g o = Some r.
+Proof. exact (GeoNoPanic.g1step_no_panic h g o). Qed.
+
 (* non-vacuity: a Geo history with merged copies, two placeholders filled out of order, a borrowed slice, anchored
    input, partial consumption; it does not panic, so the theorem applies *)
 Example C03_geo_example :
@@ -90,6 +102,8 @@ Proof. vm_compute. split; reflexivity. Qed.
 Print Assumptions C03_push.
 Print Assumptions C03_geo_refines_pipe.
 Print Assumptions C03_geo_bytes.
+Print Assumptions C03_geo_never_panics.
+Print Assumptions C03_geo_step_never_panics.
 Print Assumptions C03_register.
 Print Assumptions C03_backfill.
 Print Assumptions C03_consume.
